@@ -384,8 +384,19 @@ def number_like():
                     sign, digits, dot, digits, exp, tail)
     kw = st.builds(lambda k, t: k + t, st.sampled_from(
         KEYWORDS + list(BOOLS) + ['.INF', '.NaN', '-.inf', '+.Inf']), tail)
+    # no length limit: digit strings of 30-300 characters (more digits than a
+    # double holds; longer than any fixed-size buffer or cut-off)
+    ldigits = st.builds(lambda d, n: (d * n)[:n], st.text(alphabet='0123456789', min_size=1, max_size=7),
+                        st.sampled_from([30, 63, 64, 65, 66, 100, 128, 129, 255, 256, 257, 300]))
+    lnum = st.one_of(
+        st.builds(lambda a, b, c, e: a + b + '.' + c + e, sign, ldigits, digits, exp),
+        st.builds(lambda a, b, c, e: a + b + '.' + c + e, sign, digits, ldigits, exp),
+        st.builds(lambda a, b, e, t: a + b + e + t, sign, ldigits, exp, tail),
+        st.builds(lambda a, b: a + '.' + b + 'x', digits, ldigits),
+        st.builds(lambda k, n: k + ' ' * 0 + 'e' * n, st.sampled_from(['tru', 'fals', '.na']),
+                  st.sampled_from([1, 70])))
     return st.one_of(num, num, kw, st.text(max_size=12),
-                     st.text(alphabet=SIGMA, min_size=6, max_size=14))
+                     st.text(alphabet=SIGMA, min_size=6, max_size=14), lnum)
 
 
 def phases(tier):
